@@ -4,8 +4,7 @@ PROP = dict(
     title="Match and destructuring select the first matching arm and bind correctly",
     lean_module="AbraProofs.Properties.C14",
     required_theorems=["C14_patCompare_correct", "C14_patBind_correct", "C14_let_destructuring",
-                       "C14_match_takes_first_pass", "C14_match_selects_first_partial",
-                       "C14_match_selects_first_counterexample"],
+                       "C14_match_takes_first_pass", "C14_match_selects_first_partial", "C14_d27_regression"],
     harness_bin="c14",
     mismatch_is_violation=True,
     rule="(scrutinee type, accepted arm list, value) triples over the universe of C12 (harness/src/patuniv.rs): 420 (quick) / "
@@ -15,8 +14,8 @@ PROP = dict(
          "computes `1000 + match s { pat_k -> { println(\"x=\" .. x)…; k } }` so the arm taken, every bound variable and a leaked "
          "stack slot are observed; plus 150 / 3000 `let` and `for` destructuring programs; compared with the Lean model of the "
          "emitted code run on the model VM; spec oracle: Rust reference (first matching arm, bindings of the first matching "
-         "alternative); arms with more than one or-chain are kept out of the main stream (known finding D27, replayed); shapes of "
-         "fixes in flight (D31, D46, D47) enter the main stream once the implementation passes their probe program; "
+         "alternative); arms with several or-patterns side by side are in the main stream (D27 repaired; its input is replayed as a "
+         "regression probe); the shapes of D31, D46, D47 are in the main stream as long as the implementation passes their probe program; "
          "non-trivial = the arm taken is not arm 0, or something is bound, or an or-pattern occurs",
     nontrivial=lambda req, imp: not imp.startswith("arm=0 leak=0") or "=" in imp.split("leak=0", 1)[-1] or " or " in req,
     trusted_base=COMMON_TB + [
@@ -25,7 +24,7 @@ PROP = dict(
         "ToString for bool/int/float/string and str::parse::<f64> (bound values are printed by the program and parsed back)",
     ],
     assumptions=[
-        "repaired behaviour is modelled for D46 (a variant declaring several fields always stores a struct payload) and D47 (a void payload is popped with the variant; traverse_arm_pat skips it)",
+        "the model follows the code after the repairs D27 (binary-counter arm loop, read-only decision sets), D46 (a variant declaring several fields always stores a struct payload) and D47 (a void payload is popped with the variant; traverse_arm_pat skips it)",
         "scrutinee type is not void in the match theorem and in the harness' match stream",
     ],
     design_ref="DESIGN.md §6 C14",
@@ -39,8 +38,8 @@ PROP = dict(
                "its first matching alternative. Tied to /repo on every run: real programs report arm, bindings and "
                "stack balance, compared with the model and with a Rust reference.",
     level_note="partial: C14_match_selects_first_partial covers arms that are or-chains of or-free alternatives (and arms without or-patterns); for or-patterns NESTED inside "
-               "tuple/struct/variant patterns the proved statement is C14_match_takes_first_pass (first matching pass of the arm loop), their connection to the arm's own meaning is covered "
-               "by the tie only; with two or-patterns side by side the full statement is false on the code as it is (C14_match_selects_first_counterexample, known finding D27). "
+               "tuple/struct/variant patterns (e.g. `(1 | 2, 3 | 4)`) the proved statement is C14_match_takes_first_pass (first matching pass of the binary-counter arm loop); that the passes enumerate "
+               "exactly the arm's alternatives in order is covered by the tie only (D27, repaired, is replayed: C14_d27_regression and the harness probe). "
                "VM instruction semantics are modelled, not proved.",
     technique="Lean 4 theorems (structural induction on patterns over a skip-mode stack machine) + differential correspondence against compiled programs + Rust reference oracle",
     timeout=1500,
